@@ -64,7 +64,7 @@ def _gen_module(modname: str, fname: str, fn, kind: str) -> str:
     return name
 
 
-_CALL_RE = re.compile(r"when calling (\w+)\((.*)\)(?: \(which returns .*\))?\s*$")
+_CALL_RE = re.compile(r"when calling (\w+)\((.*?)\)(?: \(which returns .*\))?\s*$")
 
 
 def _crosshair(genmod: str, fname: str, timeout: float):
